@@ -584,6 +584,7 @@ type Path struct {
 	Lits    []Lit
 	Effects []ssa.Instruction
 	EffAt   []int           // number of literals crossed before each effect
+	Ret     []ssa.Value     // operands of the final Return with boolean phis resolved along this path
 	End     ssa.Instruction // Return, Panic, or nil when the path left the region / hit a back edge
 	EndKind string          // "return", "panic", "leave", "back"
 	Blocks  []*ssa.BasicBlock
@@ -645,12 +646,20 @@ func EnumPaths(fn *ssa.Function, o EnumOpts) ([]Path, error) {
 	var effAt []int
 	var blocks []*ssa.BasicBlock
 	var err error
+	var curEnv boolEnv
 	emit := func(end ssa.Instruction, kind string) {
 		if len(out) >= o.Max {
 			err = ErrTooManyPaths
 			return
 		}
+		var ret []ssa.Value
+		if rt, ok := end.(*ssa.Return); ok {
+			for i := range rt.Results {
+				ret = append(ret, curEnv.resolve(RetVal(rt, i)))
+			}
+		}
 		out = append(out, Path{
+			Ret: ret,
 			Lits:    append([]Lit(nil), lits...),
 			Effects: append([]ssa.Instruction(nil), effs...),
 			EffAt:   append([]int(nil), effAt...),
@@ -675,6 +684,7 @@ func EnumPaths(fn *ssa.Function, o EnumOpts) ([]Path, error) {
 		blocks = append(blocks, b)
 		ne := len(effs)
 		defer func() { onPath[b] = false; effs = effs[:ne]; effAt = effAt[:ne]; blocks = blocks[:len(blocks)-1] }()
+		curEnv = env
 		for _, in := range b.Instrs {
 			if o.Effect != nil && o.Effect(in) {
 				effs = append(effs, in)
